@@ -285,6 +285,17 @@ func (c *Ctx) Max(name string, v int64) {
 	c.mu.Unlock()
 }
 
+// Abandon ends the worker process after a case whose violation has been reported left the process in a
+// state that cannot be cleaned up (goroutines blocked for ever inside the code under test): the driver
+// resumes with the next case in a fresh process.
+func (c *Ctx) Abandon(why string) {
+	c.mu.Lock()
+	c.snapLocked(false)
+	c.mu.Unlock()
+	fmt.Fprintf(os.Stderr, "GUARD-EXIT abandoned after a reported case: %s\n", why)
+	os.Exit(3)
+}
+
 // Note sets a free-text note (reported in evidence).
 func (c *Ctx) Note(name, v string) {
 	c.mu.Lock()
